@@ -304,4 +304,99 @@ Lemma frame_set_reference_target h target w r w' :
   e_set_reference_target T tab_el tab_en check_fn LATEST h target w = Val (r, w') -> FrameOf h w w'.
 Proof. unfold e_set_reference_target. intros H. frame_with_model H. Qed.
 
+(* the copy operations *)
+Lemma frame_copy h other pos w r w' :
+  Closed w -> copy_call T LATEST h other pos w = Val (r, w') -> FrameOf h w w'.
+Proof.
+  intros Cw H. apply copy_call_inner in H as [(-> & _) | (m & v & p & _ & Hm & _ & H)].
+  - apply FrameOf_refl.
+  - destruct (ccsei_spec T _ _ _ _ _ _ _ _ Cw H) as (_ & Fr & _). exists m. split; auto.
+Qed.
+
+(* ------------------------------------------------------------------ the operation alphabet *)
+Definition local_dest (o : op) : option id :=
+  match o with
+  | OpCreateSub h _ | OpCreateSubAt h _ _ | OpCreateNamed h _ _ | OpCreateNamedAt h _ _ _
+  | OpCopy h _ | OpCopyAt h _ _
+  | OpSetCData h _ | OpRemoveCData h | OpInsertCItem h _ _ | OpRemoveCItem h _
+  | OpSetRefTarget h _ | OpSetAttr h _ _ | OpRemoveAttr h _ | OpSetComment h _
+  | OpGetOrCreate h _ | OpGetOrCreateNamed h _ _ => Some h
+  | _ => None
+  end.
+
+Lemma welem_inv (c : W id) w r w' : welem c w = Val (r, w') -> exists r0, c w = Val (r0, w').
+Proof.
+  unfold welem. intros H. apply wbind_inv in H as [(a & w1 & E & H) | (e & E & _)]; eauto.
+  apply wret_inv in H as (_ & ->). eauto.
+Qed.
+Lemma wunit_inv (c : W unit) w r w' : wunit c w = Val (r, w') -> exists r0, c w = Val (r0, w').
+Proof.
+  unfold wunit. intros H. apply wbind_inv in H as [(a & w1 & E & H) | (e & E & _)]; eauto.
+  apply wret_inv in H as (_ & ->). eauto.
+Qed.
+
+Theorem local_frame o h w r w' :
+  local_dest o = Some h -> Closed w ->
+  run_op T tab_el tab_en check_fn LATEST root_attrs o w = Val (r, w') -> FrameOf h w w'.
+Proof.
+  intros Hd Cw H.
+  destruct o; cbn [local_dest] in Hd; try discriminate Hd; injection Hd as ->; cbn [run_op] in H.
+  all: try (apply welem_inv in H as (r0 & H)).
+  all: try (apply wunit_inv in H as (r0 & H)).
+  - eapply frame_create_sub; eauto.
+  - eapply frame_create_sub_at; eauto.
+  - eapply frame_create_named; eauto.
+  - eapply frame_create_named_at; eauto.
+  - exact (frame_copy h other None w r0 w' Cw H).
+  - exact (frame_copy h other (Some pos) w r0 w' Cw H).
+  - eapply frame_set_character_data; eauto.
+  - eapply frame_remove_character_data; eauto.
+  - eapply frame_insert_citem; eauto.
+  - eapply frame_remove_citem; eauto.
+  - eapply frame_set_reference_target; eauto.
+  - eapply frame_set_attribute; eauto.
+  - apply wbind_inv in H as [(b & w1 & E & H) | (e & E & _)].
+    + apply wret_inv in H as (_ & ->). eapply frame_remove_attribute; eauto.
+    + eapply frame_remove_attribute; eauto.
+  - eapply frame_set_comment; eauto.
+  - eapply frame_get_or_create; eauto.
+  - eapply frame_get_or_create_named; eauto.
+Qed.
+
+(* ------------------------------------------------------------------ independence *)
+Lemma Sub_allocated w a x n0 :
+  Closed w -> w_nodes w a = Some n0 -> Sub w a x -> exists n, w_nodes w x = Some n.
+Proof.
+  intros Cw Ha HS. induction HS; eauto. eapply (proj2 Cw); eauto.
+Qed.
+
+Theorem independent h w w' b xb nb :
+  FrameOf h w w' -> Closed w ->
+  nth_opt (w_models w) (N.to_nat b) = Some xb -> w_nodes w (m_root xb) = Some nb ->
+  (forall x, Sub w (m_root xb) x -> x <> h) ->
+  model_of h w <> Val (OK b, w) ->
+  nth_opt (w_models w') (N.to_nat b) = Some xb /\ w_files w' = w_files w /\
+  (forall x, Sub w (m_root xb) x -> w_nodes w' x = w_nodes w x) /\
+  (forall x, Sub w' (m_root xb) x <-> Sub w (m_root xb) x) /\
+  (forall x, Sub w' (m_root xb) x -> x < w_next w).
+Proof.
+  intros (m & (Hn & Hk & Hf & Hi) & Hm) Cw Hb Hroot Hdis Hmod.
+  assert (Hsame : forall x, Sub w (m_root xb) x -> w_nodes w' x = w_nodes w x).
+  { intros x HS. destruct (Sub_allocated _ _ _ _ Cw Hroot HS) as (n & Hx).
+    apply Hk; [eapply (proj1 Cw); eauto | apply Hdis; exact HS]. }
+  assert (Hiff : forall x, Sub w' (m_root xb) x <-> Sub w (m_root xb) x).
+  { intros x. split; intros HS.
+    - induction HS as [|p n c HS IH Hp Hin]; [constructor|].
+      rewrite (Hsame p IH) in Hp. econstructor; eauto.
+    - induction HS as [|p n c HS IH Hp Hin]; [constructor|].
+      rewrite <- (Hsame p HS) in Hp. econstructor; eauto. }
+  split; [|split; [exact Hf|split; [exact Hsame|split; [exact Hiff|]]]].
+  - destruct Hm as [E|Hm]; [rewrite E; exact Hb|].
+    destruct (IdxOnly_nth _ _ _ _ _ Hi Hb) as (y & Hy & _ & _ & Heq).
+    rewrite Hy. f_equal. apply Heq. intros E. apply Hmod. rewrite Hm. do 3 f_equal.
+    apply Nnat.N2Nat.inj. symmetry. exact E.
+  - intros x HS. apply Hiff in HS. destruct (Sub_allocated _ _ _ _ Cw Hroot HS) as (n & Hx).
+    eapply (proj1 Cw); eauto.
+Qed.
+
 End Frame.
